@@ -128,8 +128,11 @@ def get_fuzzy_lex_sorting_index_map(input_array: Array, abs_tol: float, rel_tol:
         raise ValueError("Implementation only works for 2d arrays")
     idx_map = np.argsort(input_array[:, 0])
     sorted = input_array[idx_map]
+    equals = None
     for dim in range(1, input_array.shape[1]):
-        equals = get_adjacent_fuzzy_equal_indices(sorted[:, dim - 1], abs_tol=abs_tol, rel_tol=rel_tol)
+        dim_equals = get_adjacent_fuzzy_equal_indices(sorted[:, dim - 1], abs_tol=abs_tol, rel_tol=rel_tol)
+        # entries only belong to the same range if they are equal in all previous dimensions
+        equals = dim_equals if equals is None else np.logical_and(equals, dim_equals)
         for start, end in walk_adjacent_true_index_ranges(equals):
             indices = np.argsort(sorted[start:end][:, dim])
             idx_map[start:end] = idx_map[start:end][indices]
